@@ -224,6 +224,7 @@ type Fact struct {
 	PC   Term
 	F    Term
 	Note string
+	Blk  int // block of the entry function in which the fact arose (-1: unconditional)
 }
 
 // Ctx accumulates declarations, definitions and facts during the symbolic execution of
@@ -240,10 +241,12 @@ type Ctx struct {
 	strLits   map[string]string
 	heapKeys  map[string]Sort
 	qscope    *[]Term // inside a quantifier body: facts become local antecedents
+	curBlk    int                  // index of the entry function's block being executed (-1: none)
+	anc       map[int]map[int]bool // anc[b][a]: block a has a forward path to block b
 }
 
 func newCtx(bv bool) *Ctx {
-	return &Ctx{BV: bv, seen: map[string]bool{}, Assume: map[string]bool{}}
+	return &Ctx{BV: bv, seen: map[string]bool{}, Assume: map[string]bool{}, curBlk: -1}
 }
 
 var identSan = regexp.MustCompile(`[^A-Za-z0-9_.$]`)
@@ -324,14 +327,18 @@ func (c *Ctx) AddFact(pc, f Term, note string) {
 		*c.qscope = append(*c.qscope, implies(pc, f))
 		return
 	}
-	c.facts = append(c.facts, Fact{pc, f, note})
+	blk := -1
+	if pc.S != "true" {
+		blk = c.curBlk
+	}
+	c.facts = append(c.facts, Fact{pc, f, note, blk})
 }
 
 // Snapshot marks the current amount of declarations and facts: an obligation sees
 // exactly what existed when it was emitted.
-type Snapshot struct{ nd, nf int }
+type Snapshot struct{ nd, nf, blk int }
 
-func (c *Ctx) Snap() Snapshot { return Snapshot{len(c.decls), len(c.facts)} }
+func (c *Ctx) Snap() Snapshot { return Snapshot{len(c.decls), len(c.facts), c.curBlk} }
 
 const smtPrelude = `(set-option :produce-models true)
 (set-logic ALL)
@@ -346,9 +353,18 @@ var tokRe = regexp.MustCompile(`[A-Za-z_][A-Za-z0-9_.$!]*`)
 // Script renders the query "facts /\ pc /\ not goal" restricted to the cone of
 // declarations the included text refers to. extra are additional assertions (e.g.
 // Houdini guards).
-func (c *Ctx) Script(s Snapshot, pc, goal Term, extra []Term, wantModel bool) string {
+func (c *Ctx) Script(s Snapshot, pc, goal Term, extra []Term, wantModel bool, exclude ...string) string {
+	excl := map[string]bool{}
+	for _, e := range exclude {
+		excl[e] = true
+	}
 	var body bytes.Buffer
 	for _, f := range c.facts[:s.nf] {
+		// facts that arose in a block of the entry function from which the obligation's
+		// block cannot be reached are about other paths: dropping them is sound
+		if s.blk >= 0 && f.Blk >= 0 && f.Blk != s.blk && c.anc != nil && !c.anc[s.blk][f.Blk] {
+			continue
+		}
 		fmt.Fprintf(&body, "(assert %s)\n", implies(f.PC, f.F).S)
 	}
 	for _, e := range extra {
@@ -363,6 +379,9 @@ func (c *Ctx) Script(s Snapshot, pc, goal Term, extra []Term, wantModel bool) st
 	keep := make([]bool, s.nd)
 	for i := s.nd - 1; i >= 0; i-- {
 		d := c.decls[i]
+		if excl[d.name] {
+			continue
+		}
 		if need[d.name] || strings.HasPrefix(d.text, "(assert") && needAny(need, d.text) {
 			keep[i] = true
 			for _, m := range tokRe.FindAllString(d.text, -1) {
